@@ -359,3 +359,31 @@ def a9_lexical(ctx):
 
 
 RULES.append(('A9', a9_lexical))
+
+
+def a10_trailing_tokens(ctx):
+    """A10 what SyntaxParser::parse returns is what the expression ladder returned: it adds no error of its own. Printed forms
+    can end in a mark that is not part of the literal (the Danish `1.234,50 kr.`: the money token ends at `kr`), and typed lines
+    end in all sorts of things; a parser that refuses left-over tokens turns those into errors."""
+    from ..common import result_alternatives
+    ctx.rule('A10', 'the parser does not refuse left-over tokens', floor=1)
+    b = ctx.facts.one(r'^syntax::SyntaxParser::<.*>::parse$|^syntax::SyntaxParser::parse$')
+    ctx.fn(b)
+    own = []
+    n = 0
+    for v, inner, conds in result_alternatives(b):
+        n += 1
+        r = render(inner)
+        if v == 'Err' and 'map_parser(' not in r and 'from_residual' not in r and 'branch(' not in r:
+            own.append(r[:80])
+        if v == '?' and 'map_parser(' not in r:
+            own.append(r[:80])
+    if n == 0:
+        raise AnchorLost('SyntaxParser::parse has no result')
+    if own:
+        ctx.finding('A10', 'SyntaxParser::parse/own-error', 'SyntaxParser::parse returns an error of its own (%s) besides what the expression ladder returns: a line with something behind a complete expression is refused' % own[0], site=b.loc)
+    else:
+        ctx.ok('A10', 'SyntaxParser::parse hands back the result of the expression ladder unchanged', 'gamma', site=b.loc)
+
+
+RULES.append(('A10', a10_trailing_tokens))
